@@ -81,6 +81,12 @@ OTHER_FORMS = [  # (ddl, expected type (white space removed), expected size)
     ("double precision", "doubleprecision", None), ("character varying(20)", "charactervarying", 20), ("timestamp without time zone", None, None),
     ("text[][]", "text[][]", None), ("timestamp(0)", "timestamp", 0), ("time(0)", "time", 0), ("decimal(0,0)", "decimal", [0, 0]), ("float(0)", "float", 0),
 ]
+# every sized / unsized spelling x every suffix written after it (array brackets, ARRAY, a second type word): type text and size both survive
+_SIZED = [("varchar(10)", "varchar", 10), ("decimal(10,2)", "decimal", [10, 2]), ("decimal(10, 2)", "decimal", [10, 2]), ("numeric (12, 4)", "numeric", [12, 4]),
+          ("number(*,2)", "number", ["*", 2]), ("int(11)", "int", 11), ("character varying(20)", "charactervarying", 20), ("timestamp(0)", "timestamp", 0),
+          ("decimal(0,0)", "decimal", [0, 0]), ("varchar(max)", "varchar", "max"), ("text", "text", None), ("double precision", "doubleprecision", None)]
+_SUFFIX = [("[]", "[]"), ("[][]", "[][]"), (" ARRAY", "[]"), (" unsigned", "unsigned")]
+OTHER_FORMS += [(b + sf, ty + sfe, sz) for b, ty, sz in _SIZED for sf, sfe in _SUFFIX]
 OPTS = [("", {}), (" NOT NULL", {"nullable": False}), (" DEFAULT 'x'", {"default": "'x'"}), (" COMMENT 'c c'", {"comment": "'c c'"})]
 
 
